@@ -147,6 +147,7 @@ fn _param_list_openqasm(p: &mut Parser<'_>, flavor: DefFlavor) {
 
     // Parse items until EOF or an end token is seen.
     while !p.at(EOF) && !at_list_end_token(p, flavor) {
+        let pos_before_item = p.position();
         let m = p.start();
 
         let inner_array_literal = p.at(T!['{']);
@@ -195,6 +196,11 @@ fn _param_list_openqasm(p: &mut Parser<'_>, flavor: DefFlavor) {
             break;
         }
         num_params += 1;
+
+        // The item parser recorded its errors but consumed nothing: stop, or we would loop forever.
+        if p.position() == pos_before_item {
+            break;
+        }
 
         // If the very next token is an end token, stop
         if at_list_end_token(p, flavor) {
